@@ -17,7 +17,7 @@ RULE = (
     "the same shape are bit-identical. Non-trivial = q1,q2 linearly independent and a*b != 0; distinct = canonical JSON."
 )
 ASSUMPTIONS = ["shooting growth bounded by exp(13.8) by construction", "levels ascending (ordering is C10's subject)"]
-TOLERANCES = {"linearity": "(1e-12 + 256*eps*G) * (|a| max|S1| + |b| max|S2| + max|S12|)", "footprint independence": "bit-identical"}
+TOLERANCES = {"linearity": "(1e-12 + 4096*eps*G) * (|a| max|S1| + |b| max|S2| + max|S12|)", "footprint independence": "bit-identical"}
 BUDGET = {"quick": dict(examples=400, shards=1), "thorough": dict(examples=2500, shards=16)}
 
 
@@ -69,11 +69,14 @@ def check_case(case):
         _, cc, ff = sut.S(q, z, prof, dom, lv, srf_bg_conc=c, **kw)
         return sut.as3d(cc), sut.as3d(ff)
 
+    f1s, c1s = tol.natural_scales(q1, z, prof, c1)
+    f2s, c2s = tol.natural_scales(q2, z, prof, c2)
     C1, F1 = run(q1, c1)
     C2, F2 = run(q2, c2)
     C12, F12 = run(a * q1 + b * q2, a * c1 + b * c2)
     for name, X1, X2, X12 in (("conc", C1, C2, C12), ("flux", F1, F2, F12)):
-        scale = abs(a) * tol.maxabs(X1) + abs(b) * tol.maxabs(X2) + tol.maxabs(X12)
+        s1, s2 = (c1s, c2s) if name == "conc" else (f1s, f2s)
+        scale = abs(a) * max(tol.maxabs(X1), s1) + abs(b) * max(tol.maxabs(X2), s2) + tol.maxabs(X12)
         err = tol.maxabs(X12 - (a * X1 + b * X2))
         if not err <= rel * scale:
             out.bad(f"{name}: S(a q1+b q2, a c1+b c2) differs from a S(q1,c1)+b S(q2,c2) by {err:.3e} (> {rel * scale:.3e}); a={a}, b={b}")
@@ -81,10 +84,10 @@ def check_case(case):
     # background is a uniform offset of the concentration and leaves the flux alone
     C10, F10 = run(q1, 0.0)
     d = C1 - C10
-    cs = max(tol.maxabs(C1), abs(c1))
+    cs = max(tol.maxabs(C1), abs(c1), c1s)
     if not tol.maxabs(d - c1) <= rel * cs:
         out.bad(f"conc(q, bg={c1}) - conc(q, 0) is not the uniform offset {c1}: deviation {tol.maxabs(d - c1):.3e}")
-    if not tol.maxabs(F1 - F10) <= rel * tol.maxabs(F1):
+    if not tol.maxabs(F1 - F10) <= rel * max(tol.maxabs(F1), f1s):
         out.bad(f"flux changes with the background concentration by {tol.maxabs(F1 - F10):.3e}")
 
     # footprint: independent of the values of the source array
